@@ -370,6 +370,7 @@ def gen_bars(shard):
 
 
 TRACK_BAR_SETTINGS = [("C", (4, 4)), ("f#", (4, 4)), ("Bb", (12, 8))]
+KEY_SEQUENCES = [["C", "a"], ["a", "C"], ["f#", "A", "f#"], ["Eb", "c", "Eb"], ["A", "a"], ["c", "C", "c"], ["Cb", "ab"], ["a#", "C#"]]
 
 
 def gen_tracks(shard):
@@ -387,6 +388,11 @@ def gen_tracks(shard):
                 for repeat in (0, 1):
                     yield {"comp": {"tracks": [{"name": "Tr", "instrument": instr, "bars": bars}]},
                            "bpm": 120, "repeat": repeat, "apis": ["track"] if repeat else ["track", "composition"]}
+    # one track passing through keys that share a signature (relative keys) or a tonic (parallel keys)
+    for keyseq in KEY_SEQUENCES:
+        bars = [Z.bar_recipe(Z.PATTERNS[p0], key=k, meter=(4, 4)) for k in keyseq]
+        yield {"comp": {"tracks": [{"name": "Keys", "instrument": None, "bars": bars}]},
+               "bpm": 120, "repeat": 0, "apis": ["track", "composition"]}
 
 
 COMPOSITION_TRACKS = [
@@ -509,6 +515,8 @@ def explore(ctx):
         ctx.product("standalone", list(range(10)) + ["nc"], gen_standalone)
     if ctx.want("bars"):
         passes = [([4, 8, 2], ctx.pick(3, 4))]
+        # values whose tick length is not integral (57.6, 28.8, 4.5 ticks): consecutive rests must each be rounded
+        passes.append(([5, 10, 64], ctx.pick(3, 3)))
         if thorough:
             passes.append(([4, 8, 2, "4.", 6, 20, 64, 10], 3))
         ctx.bound("bars", [{"symbols": Z.SYMBOLS, "values": v, "max_entries": m} for v, m in passes])
